@@ -74,6 +74,37 @@ LIFETIME_PROBES = {
     "GetterStateDeviceWrapper::get_terminal": _probe("GetterStateDeviceWrapper::<NoneGetter, ()>::new(NoneGetter::new())", "d.get_terminal()"),
     "PIDWrapper::get_terminal": _probe("PIDWrapper::<S<f32>, ()>::new(S(SettableData::new()), Time(0), State::new_raw(0.0,0.0,0.0), Command::Position(0.0), %s)" % K, "d.get_terminal()"),
 }
+# terminals that are linked must be pinned for one common lifetime: connecting a longer-lived terminal to a shorter-lived one
+# and using the former after the latter is gone must be rejected
+LIFETIME_PROBES["connect (free terminals of different scopes)"] = PRELUDE + """
+fn main() {
+    let long = Terminal::<()>::new();
+    {
+        let short = Terminal::<()>::new();
+        connect(&long, &short);
+    } // `short` is dropped here while `long` still points at it
+    let got: Output<State, ()> = long.borrow().get();
+    std::hint::black_box(&got);
+}
+"""
+LIFETIME_PROBES["connect (moved partner)"] = PRELUDE + """
+fn main() {
+    let a = Terminal::<()>::new();
+    let b = Terminal::<()>::new();
+    connect(&a, &b);
+    let moved = b; // moving a linked terminal must be rejected (it is borrowed for as long as the link may be used)
+    let got: Output<State, ()> = a.borrow().get();
+    std::hint::black_box(&got);
+    std::hint::black_box(&moved);
+}
+"""
+# safe conversions that would manufacture a `Reference` from a raw pointer without `unsafe`: must not exist
+SAFE_CONVERSION_PROBES = {
+    "Reference from ReferenceUnsafe::Ptr (From/Into)": PRELUDE + "fn main() { let mut x = 5i32; let p = &mut x as *mut i32; let r: Reference<i32> = ReferenceUnsafe::Ptr(p).into(); std::hint::black_box(*r.borrow()); }\n",
+    "Reference from ReferenceUnsafe::PtrRwLock (From/Into)": PRELUDE + "fn main() { let x = std::sync::RwLock::new(5i32); let r: Reference<i32> = Reference::from(ReferenceUnsafe::PtrRwLock(&x as *const _)); std::hint::black_box(*r.borrow()); }\n",
+    "Reference from ReferenceUnsafe::PtrMutex (TryFrom)": PRELUDE + "fn main() { let x = std::sync::Mutex::new(5i32); let r: Reference<i32> = Reference::try_from(ReferenceUnsafe::PtrMutex(&x as *const _)).ok().unwrap(); std::hint::black_box(*r.borrow()); }\n",
+    "ReferenceUnsafe::borrow in safe code": PRELUDE + "fn main() { let mut x = 5i32; let u = ReferenceUnsafe::Ptr(&mut x as *mut i32); let b = u.borrow(); std::hint::black_box(*b); }\n",
+}
 # controls: one program that must compile, one that must be rejected for a lifetime reason, one for the unsafe constructors
 CONTROL_OK = PRELUDE + """
 fn main() {
@@ -107,7 +138,7 @@ def c16_extra(tier, seed, log):
     try:
         names = {}
         bins = {"control_ok": CONTROL_OK, "control_reject": CONTROL_REJECT}
-        for k, (n, src) in enumerate(list(LIFETIME_PROBES.items()) + list(UNSAFE_CTOR_PROBES.items())):
+        for k, (n, src) in enumerate(list(LIFETIME_PROBES.items()) + list(UNSAFE_CTOR_PROBES.items()) + list(SAFE_CONVERSION_PROBES.items())):
             bn = "p%02d" % k
             names[bn] = n
             bins[bn] = src
@@ -122,7 +153,12 @@ def c16_extra(tier, seed, log):
             return {"violations": [], "evidence": ev}
         for bn, n in names.items():
             rc, out = _run(["cargo", "build", "--offline", "--quiet", "--bin", bn], d)
-            if n in UNSAFE_CTOR_PROBES:
+            if n in SAFE_CONVERSION_PROBES:
+                ev["probes"][n] = "rejected" if rc != 0 else "ACCEPTED in safe code"
+                if rc == 0:
+                    viol.append({"kind": "a Reference over a raw pointer can be manufactured / dereferenced without `unsafe`", "case": "probe:" + n,
+                                 "found_input": True})
+            elif n in UNSAFE_CTOR_PROBES:
                 ok = rc != 0 and "E0133" in out
                 ev["probes"][n] = "rejected (E0133: unsafe fn)" if ok else ("ACCEPTED in safe code" if rc == 0 else "rejected for another reason")
                 if rc == 0:
